@@ -209,6 +209,18 @@ void harness(void)
       if (in_v1 < 0 || in_v1 > 65535) { REJECT("target outside the program memory"); WITNESS("long jump rejected"); }
       else EXPECT2(in_form == 8 ? 0x940C : 0x940E, in_v1, "JMP/CALL k: 1001 010k kkkk 11xk + low 16 address bits (k < 64K words)"); break;
   }
+#elif defined(G_PBIT)
+  ASSUME(in_form < 4);
+  {
+    static const row pbit_ops[4] = { {"CBI",0x9800},{"SBI",0x9A00},{"SBIC",0x9900},{"SBIS",0x9B00} };
+    for (f = 0; f < 4; f++) if (f == in_form)
+    {
+      run(pbit_ops[f].mn, 2);                         /* I/O address given as a plain number, bit number as second operand */
+      if (in_v2 < 0 || in_v2 > 7) REJECT("bit number outside 0..7");
+      else if (in_v1 < 0 || in_v1 > 31) { REJECT("CBI/SBI/SBIC/SBIS reach I/O addresses 0..31 only"); WITNESS("I/O bit address rejected"); }
+      else EXPECT1(pbit_ops[f].op | (in_v1 << 3) | in_v2, "I/O bit instruction: AAAA Abbb");
+    }
+  }
 #endif
   WITNESS("end");
 }
